@@ -393,7 +393,7 @@ def run(ck, F):
         raise AnalysisBroken(f'get_identifier overloads found: {len(gids)}')
     # word -> String: the routes word -> linkage / label recognise the constants by the identity of the interned String, so a
     # reserved spelling must be interned as the reserved-word node
-    intern = F.need_fn('ipr::util::string_pool::intern(std::basic_string_view<char8_t, std::char_traits<char8_t>>)')
+    intern = F.intern_fn()
     iroutes = words.spelling_routes(F, intern['id'], lambda fid: F.fn.get(fid) is None or F.fn[fid]['name'] in ('word_if_known', 'make_string'))
     ibad = [(w, [x.decode('utf-8', 'replace') for x in ps[:3]]) for w, ps, _s in iroutes if ps]
     ck.check(R6, 'intern(word)', bool(iroutes) and not ibad,
